@@ -108,7 +108,7 @@ func NewSpecs() *Specs {
 	}
 }
 
-var labelRe = regexp.MustCompile(`^\[([A-Za-z0-9_.\-]+)\]\s*`)
+var labelRe = regexp.MustCompile(`^\[([A-Za-z0-9_.+\-]+)\]\s*`)
 
 var keywords = map[string]bool{
 	"func": true, "requires": true, "ensures": true, "modifies": true, "trusted": true,
@@ -483,6 +483,16 @@ func labelProp(label string) string {
 		return label[:i]
 	}
 	return label
+}
+
+// labelHasProp: a label may name several properties, "C14+C10.name".
+func labelHasProp(label, prop string) bool {
+	for _, p := range strings.Split(labelProp(label), "+") {
+		if p == prop {
+			return true
+		}
+	}
+	return false
 }
 
 // qualifyKey turns a key written relative to a sub-package's contract file into the global
